@@ -164,9 +164,60 @@ def judge(d1, d2, tol, kind):
     # never happen is a reported transform that does not map s1 onto s2 within the tolerance - checked by (i) above
     return None
 
+# ---------------------------------------------------------------- shapes with arcs: the outline itself is compared
+ARC_LAW = 'a reported transform maps the outline of s1 (arcs included) onto the outline of s2'
+
+def _polyline(d, M=None):
+    import render
+    pts = []
+    for sub, closed in render.flatten(pathsem.parse_simple(d), n=16):
+        q = [tuple(M.map_point(p)) if M is not None else tuple(p) for p in sub]
+        if closed: q.append(q[0])
+        pts.append(q)
+    return pts
+
+def _dist_to(pt, lines):
+    best = float('inf')
+    for q in lines:
+        for (x1, y1), (x2, y2) in zip(q, q[1:]):
+            dx, dy = x2 - x1, y2 - y1
+            L = dx * dx + dy * dy
+            t = 0.0 if L == 0 else max(0.0, min(1.0, ((pt[0] - x1) * dx + (pt[1] - y1) * dy) / L))
+            best = min(best, math.hypot(pt[0] - x1 - t * dx, pt[1] - y1 - t * dy))
+    return best
+
+def judge_arcs(d1, d2, tol):
+    """when a transform is reported for shapes with arcs: every sampled point of A(outline of s1) lies on the outline of s2 and
+    vice versa (up to the chord error of the sampling and the accumulated tolerance)"""
+    impl = impl_between(d1, d2, tol)
+    if impl[0] != 'ok' or impl[1] is None: return None
+    M = Affine2D(*impl[1])
+    a, b = _polyline(d1, M), _polyline(d2)
+    size = max([abs(v) for q in b for p in q for v in p] + [1.0])
+    slack = 0.02 * size + 4 * tol * len(pathsem.parse_simple(d2))
+    worst = max([_dist_to(p, b) for q in a for p in q] + [_dist_to(p, a) for q in b for p in q])
+    if worst > slack:
+        return (ARC_LAW, {'max_distance_allowed': slack}, {'A': impl[1], 'distance': worst})
+    return None
+
+ARC_PAIRS = [
+    # (s1, s2, tol): controls - a translated, a uniformly scaled and a 180-degree rotated copy of a shape with a circular arc
+    ('M0,0 l4,0 a2 2 0 0 1 2,2 z', 'M7,-3 l4,0 a2 2 0 0 1 2,2 z', 0.01),
+    ('M0,0 l4,0 a2 2 0 0 1 2,2 z', 'M0,0 l8,0 a4 4 0 0 1 4,4 z', 0.01),
+    ('M0,0 l4,0 a2 2 0 0 1 2,2 z', 'M0,0 l-4,0 a2 2 0 0 1 -2,-2 z', 0.01),
+    # the recorded finding: mirror image whose sweep flag was NOT flipped, quarter turn of an ellipse whose radii were not swapped
+    ('M0,0 l4,0 a2 2 0 0 1 2,2 z', 'M0,0 l4,0 a2 2 0 0 1 2,-2 z', 0.01),
+    ('M0,0 l4,0 a3 1 0 0 1 2,2 z', 'M0,0 l0,4 a3 1 0 0 1 -2,2 z', 0.01),
+]
+
 def search(ctx, broken, disagreements):
     found, n = [], 0
     seen = set()
+    for d1, d2, tol in ARC_PAIRS:
+        n += 1
+        v = judge_arcs(d1, d2, tol)
+        if v:
+            found.append({'law': v[0], 'input': {'s1': d1, 's2': d2, 'tol': tol, 'kind': 'arcs'}, 'expected_by_spec': jsonable(v[1]), 'observed': jsonable(v[2])})
     for d1, d2, tol, kind in cases(ctx):
         n += 1
         v = judge(d1, d2, tol, kind)
@@ -175,8 +226,26 @@ def search(ctx, broken, disagreements):
             found.append({'law': v[0], 'input': {'s1': d1, 's2': d2, 'tol': tol, 'kind': kind}, 'expected_by_spec': jsonable(v[1]), 'observed': jsonable(v[2])})
     return found, {'evaluations': n}
 
-def matches_known(v, entry): return False
+def matches_known(v, entry):
+    sig = entry.get('signature', {})
+    if sig.get('pattern') == 'arc_parameters_not_transformed' and v.get('law') == ARC_LAW:
+        # the arc's flags / rotation / radii are carried over unchanged: wrong exactly when the reported map is a reflection, or
+        # turns / stretches an arc whose radii differ
+        A = (v.get('observed') or {}).get('A')
+        if A: A = [float(x) for x in unjson(A)]
+        cmds = pathsem.parse_simple(v['input']['s1'])
+        arcs = [a for c, a in cmds if c.upper() == 'A']
+        if not A or not arcs: return False
+        a, b, c, d = A[:4]
+        reflection = a * d - b * c < 0
+        similarity = abs(a - d) < 1e-9 and abs(b + c) < 1e-9
+        elliptical = any(abs(abs(x[0]) - abs(x[1])) > 1e-12 for x in arcs)
+        return reflection or (elliptical and (abs(b) > 1e-9 or not similarity))
+    return False
 
 def replay(ctx, w):
+    if w.get('kind') == 'arcs':
+        v = judge_arcs(w['s1'], w['s2'], w['tol'])
+        return {'fails': v is not None, 'detail': jsonable(v), 'impl': impl_between(w['s1'], w['s2'], w['tol'])}
     v = judge(w['s1'], w['s2'], w['tol'], w.get('kind', ''))
     return {'fails': v is not None, 'detail': jsonable(v), 'impl': impl_between(w['s1'], w['s2'], w['tol'])}
